@@ -43,6 +43,7 @@ enum LOp {
     RawStr,
     TypeAndNumber,
     DropHandle,
+    CloneToOwned,
 }
 
 fn collect(errs: &Arc<Mutex<Vec<Violation>>>, r: Result<(), Violation>) -> bool {
@@ -110,7 +111,8 @@ fn lazy_scenario() -> SimResult {
     for t in 0..nthreads {
         let nops = range(1, 4);
         let ops: Vec<LOp> = (0..nops)
-            .map(|_| match draw(9) {
+            .map(|_| match draw(10) {
+                9 => LOp::CloneToOwned,
                 0 | 1 | 2 => LOp::AsStr,
                 3 => LOp::AsStrTwice,
                 4 => LOp::CloneReadDrop,
@@ -174,6 +176,22 @@ fn lazy_scenario() -> SimResult {
                         } else {
                             true
                         }
+                    }
+                    LOp::CloneToOwned => {
+                        // a clone (sharing the published decoding, if any) is consumed by the
+                        // borrowed-to-owned conversion while the original lives on
+                        let r = (|| {
+                            let c = libcall("clone", || target.clone())?;
+                            let o = libcall("OwnedLazyValue::from(clone)", || OwnedLazyValue::from(c))?;
+                            let got = libcall("owned.as_str", || o.as_str().map(|s| String::from_utf8_lossy(s.as_bytes()).into_owned()))?;
+                            let want = if let J::Str(s) = &decoded { Some(s.clone()) } else { None };
+                            libcall("drop owned", move || drop(o))?;
+                            if got != want {
+                                return Err(Violation::new("mismatch/as_str", format!("{}: owned.as_str = {:?}, model {:?}", what, got, want)));
+                            }
+                            check_lazy_str(target, &decoded, &what)
+                        })();
+                        collect(&errs, r)
                     }
                 };
                 if !ok {
